@@ -6,6 +6,10 @@
 #include <iostream>
 #include <limits>
 #include <random>
+#include <csignal>
+#include <unistd.h>
+static char const* g_tn = ""; static char const* g_en = "";
+static void on_fpe(int) { char const m[] = "  VIOLATED on the real code: C10.usage: arithmetic exception (division by zero) inside random_number_usage\nproperty violated on the real code\n"; ssize_t r = write(1, m, sizeof(m) - 1); (void)r; _exit(1); }
 template <typename E> struct counting
 {
     typedef typename E::result_type result_type;
@@ -34,6 +38,7 @@ template <typename T, typename E> static void one(char const* tn, char const* en
 template <typename E> static void all(char const* en) { one<float, E>("float", en); one<double, E>("double", en); one<long double, E>("long double", en); }
 int main()
 {
+    std::signal(SIGFPE, on_fpe);
     all<std::minstd_rand0>("minstd_rand0"); all<std::minstd_rand>("minstd_rand"); all<std::mt19937>("mt19937"); all<std::mt19937_64>("mt19937_64");
     all<std::ranlux24_base>("ranlux24_base"); all<std::ranlux48_base>("ranlux48_base"); all<std::ranlux24>("ranlux24"); all<std::ranlux48>("ranlux48"); all<std::knuth_b>("knuth_b");
     all<synth<0, 1>>("range 2"); all<synth<0, 2>>("range 3"); all<synth<5, 10>>("range 6"); all<synth<0, 255>>("range 256"); all<synth<0, (1ULL << 33)>>("range 2^33+1");
